@@ -28,6 +28,8 @@ const (
 	ConstV
 	NilV
 	NonNilV
+	// LenV is a non-nil slice/array-backed value of known length C.
+	LenV
 )
 
 // AV is an abstract value.
@@ -44,6 +46,8 @@ func (a AV) String() string {
 		return "nil"
 	case NonNilV:
 		return "non-nil"
+	case LenV:
+		return "len=" + a.C.String()
 	}
 	return "⊤"
 }
@@ -66,10 +70,14 @@ type State struct {
 	alias map[ssa.Value]string // callee parameter -> caller access path
 	trail map[*ssa.BasicBlock]bool
 	pred  *ssa.BasicBlock
+	tuple map[*ssa.Call][]AV
 }
 
 func (s *State) clone() *State {
-	n := &State{env: make(map[ssa.Value]AV, len(s.env)), mem: make(map[string]AV, len(s.mem)), alias: s.alias, trail: make(map[*ssa.BasicBlock]bool, len(s.trail)), pred: s.pred}
+	n := &State{env: make(map[ssa.Value]AV, len(s.env)), mem: make(map[string]AV, len(s.mem)), alias: s.alias, trail: make(map[*ssa.BasicBlock]bool, len(s.trail)), pred: s.pred, tuple: map[*ssa.Call][]AV{}}
+	for k, v := range s.tuple {
+		n.tuple[k] = v
+	}
 	for k, v := range s.env {
 		n.env[k] = v
 	}
@@ -148,7 +156,7 @@ func (in *Interp) Run(fn *ssa.Function, args []AV) ([]PathResult, error) {
 	}
 	in.paths = 0
 	in.err = nil
-	st := &State{env: map[ssa.Value]AV{}, mem: map[string]AV{}, alias: map[ssa.Value]string{}, trail: map[*ssa.BasicBlock]bool{}}
+	st := &State{env: map[ssa.Value]AV{}, mem: map[string]AV{}, alias: map[ssa.Value]string{}, trail: map[*ssa.BasicBlock]bool{}, tuple: map[*ssa.Call][]AV{}}
 	for i, p := range fn.Params {
 		if i < len(args) {
 			st.env[p] = args[i]
@@ -262,7 +270,7 @@ func (in *Interp) runBlock(b *ssa.BasicBlock, start int, st *State, depth int, p
 			callee := n.Call.StaticCallee()
 			if callee != nil && callee.Blocks != nil && depth < in.Depth && callee.Pkg != nil && IsRepoPkg(callee.Pkg.Pkg.Path()) &&
 				(in.FollowCall == nil || in.FollowCall(callee)) && n.Type() != nil {
-				if _, isTuple := n.Type().(*types.Tuple); !isTuple || n.Type().(*types.Tuple).Len() == 0 {
+				{
 					// interpret callee; every callee path continues this path
 					cs := st.clone()
 					cs.trail = map[*ssa.BasicBlock]bool{}
@@ -297,6 +305,8 @@ func (in *Interp) runBlock(b *ssa.BasicBlock, start int, st *State, depth int, p
 							}
 						} else if len(rp.Ret) == 1 {
 							ns.env[n] = rp.Ret[0]
+						} else if len(rp.Ret) > 1 {
+							ns.tuple[n] = append([]AV{}, rp.Ret...)
 						}
 						np.Ret = nil
 						in.runBlock(b, rest, ns, depth, np, k)
@@ -353,6 +363,9 @@ func (in *Interp) defaultCall(c *ssa.Call, st *State) AV {
 				a := in.eval(c.Call.Args[0], st)
 				if a.K == NilV {
 					return AVInt(0)
+				}
+				if a.K == LenV {
+					return AV{ConstV, a.C}
 				}
 				if a.K == ConstV && a.C.Kind() == constant.String {
 					return AVInt(int64(len(constant.StringVal(a.C))))
@@ -469,8 +482,14 @@ func (in *Interp) eval1(v ssa.Value, st *State) AV {
 		x, y := in.eval(n.X, st), in.eval(n.Y, st)
 		switch n.Op {
 		case token.EQL, token.NEQ:
-			if (x.K == NilV && y.K == NilV) || (x.K == NilV && y.K == NonNilV) || (x.K == NonNilV && y.K == NilV) {
-				eq := x.K == y.K
+			nn := func(a AV) AVKind {
+				if a.K == LenV {
+					return NonNilV
+				}
+				return a.K
+			}
+			if (nn(x) == NilV && nn(y) == NilV) || (nn(x) == NilV && nn(y) == NonNilV) || (nn(x) == NonNilV && nn(y) == NilV) {
+				eq := nn(x) == nn(y)
 				return AVBool(eq == (n.Op == token.EQL))
 			}
 			fallthrough
@@ -485,9 +504,14 @@ func (in *Interp) eval1(v ssa.Value, st *State) AV {
 		}
 		return AV{}
 	case *ssa.Extract:
-		if c, ok := n.Tuple.(*ssa.Call); ok && in.PinCall != nil {
-			if av, ok := in.PinCall(c, n.Index, st); ok {
-				return av
+		if c, ok := n.Tuple.(*ssa.Call); ok {
+			if in.PinCall != nil {
+				if av, ok := in.PinCall(c, n.Index, st); ok {
+					return av
+				}
+			}
+			if t, ok := st.tuple[c]; ok && n.Index < len(t) {
+				return t[n.Index]
 			}
 		}
 		return AV{}
@@ -510,6 +534,17 @@ func (in *Interp) eval1(v ssa.Value, st *State) AV {
 		x := in.eval(n.X, st)
 		if x.K == NilV {
 			return x
+		}
+		// full slice of a freshly allocated array: known length
+		if n.Low == nil && n.High == nil {
+			if a, ok := n.X.(*ssa.Alloc); ok {
+				if arr, ok := a.Type().(*types.Pointer).Elem().Underlying().(*types.Array); ok {
+					return AV{LenV, constant.MakeInt64(arr.Len())}
+				}
+			}
+			if x.K == LenV {
+				return x
+			}
 		}
 		return AV{}
 	case *ssa.Field:
